@@ -162,10 +162,38 @@ class Result:
         self.reason = reason
 
 
+# Side queries made DURING symbolic execution (path feasibility, entailment used to simplify lengths and views) must
+# not depend on wall-clock time: if they did, the shape of the generated formulas - and then the verdicts - would change
+# with machine load.  While RLIMIT is set every solver call is bounded by z3's deterministic resource counter instead
+# (about 5e6 units per second on this machine) and only backstopped by a generous timeout.
+RLIMIT = None
+
+
 def _tactic_solver(timeout_ms):
     s = z3.Solver()
-    s.set("timeout", timeout_ms)
+    if RLIMIT:
+        s.set("rlimit", RLIMIT)
+        s.set("timeout", max(timeout_ms, 20000))
+    else:
+        s.set("timeout", timeout_ms)
     return s
+
+
+class side_query:
+    """with smt.side_query(): ...  - deterministic resource bound for everything inside"""
+
+    def __init__(self, rlimit=1500000):
+        self.rlimit = rlimit
+
+    def __enter__(self):
+        global RLIMIT
+        self.saved = RLIMIT
+        RLIMIT = self.rlimit
+
+    def __exit__(self, *exc):
+        global RLIMIT
+        RLIMIT = self.saved
+        return False
 
 
 def skolemize(goal):
@@ -409,26 +437,38 @@ def _stage_ground(premises, goal, timeout_ms):
     if _has_quant(goal):
         return z3.unknown
     cache = {}
-    s = _tactic_solver(timeout_ms)
     fs = [abstract_nl(p, cache) for p in ground]
     g = abstract_nl(goal, cache)
-    for f in fs:
-        s.add(f)
-    for ax in _mul_axioms():
-        s.add(ax)
-    for h in _ground_mul_hints(fs + [g]):
-        s.add(h)
-    s.add(z3.Not(g))
-    return s.check()
+    # cheapest first: products as a plain uninterpreted function (congruence only), then the multiplication axioms,
+    # then the ground re-association hints.  Each set of facts is a subset of the next: a proof from fewer facts is a
+    # proof, and the quantified axioms plus ~100 hints slow the search by two orders of magnitude when not needed
+    # (measured on read_plan's content clause: 0.02 s plain, 2-20 s with everything).
+    hints = None
+    for level in (0, 1, 2):
+        s = _tactic_solver(min(timeout_ms, 3000) if level < 2 else timeout_ms)
+        for f in fs:
+            s.add(f)
+        if level >= 1:
+            for ax in _mul_axioms():
+                s.add(ax)
+        if level >= 2:
+            hints = hints if hints is not None else _ground_mul_hints(fs + [g])
+            for h in hints:
+                s.add(h)
+        s.add(z3.Not(g))
+        r = s.check()
+        if r == z3.unsat:
+            return r
+    return r
 
 
 def _stage_abstract(premises, goal, timeout_ms, ground=False):
     if ground:
         premises = list(premises) + premise_instances(premises, goal)
     cache = {}
-    s = _tactic_solver(timeout_ms)
     fs = [abstract_nl(p, cache) for p in premises]
     g = abstract_nl(goal, cache)
+    s = _tactic_solver(timeout_ms)
     for f in fs:
         s.add(f)
     for ax in _mul_axioms():
